@@ -216,6 +216,11 @@ func (c *Ctx) Finish() int {
 	}
 	exit := 0
 	rdir := filepath.Join(batch.VerifRoot, "replays", c.Prop)
+	scratchRun := os.Getenv("PV_REPO") != "" || os.Getenv("PV_NOEVIDENCE") != ""
+	if scratchRun {
+		// seeded-break trials on a scratch worktree never touch the committed evidence/replays
+		rdir = filepath.Join(os.TempDir(), "pv-seed-replays", c.Prop)
+	}
 	if len(c.viols) > 0 {
 		os.MkdirAll(rdir, 0o755)
 	}
@@ -280,9 +285,11 @@ func (c *Ctx) Finish() int {
 	if len(c.broken) > 0 {
 		ev["broken"] = c.broken
 	}
-	os.MkdirAll(filepath.Join(batch.VerifRoot, "evidence"), 0o755)
 	b, _ := json.MarshalIndent(ev, "", " ")
-	os.WriteFile(filepath.Join(batch.VerifRoot, "evidence", c.Prop+".json"), b, 0o644)
+	if !scratchRun {
+		os.MkdirAll(filepath.Join(batch.VerifRoot, "evidence"), 0o755)
+		os.WriteFile(filepath.Join(batch.VerifRoot, "evidence", c.Prop+".json"), b, 0o644)
+	}
 	if len(c.broken) > 0 && exit == 0 {
 		for _, m := range c.broken {
 			fmt.Printf("BROKEN-CHECK property=%s %s\n", c.Prop, m)
